@@ -76,6 +76,10 @@ macro_rules! dispatch {
                 type $p = props::c19::C19;
                 $body
             }
+            "C20" => {
+                type $p = props::c20::C20;
+                $body
+            }
             other => {
                 eprintln!("HARNESS-ERROR: unknown property {other}");
                 2
